@@ -28,6 +28,9 @@ Lemma winv_say r w : winv w -> winv (say r w).
 Proof. apply winv_logi. exact I. Qed.
 Lemma winv_set_in w i : winv w -> winv (set_in w i).
 Proof. intros [A B]. split; auto. Qed.
+Lemma winv_starved w : winv w -> winv (logi Starved w).
+Proof. apply winv_logi. exact I. Qed.
+Ltac wsolve := repeat first [apply winv_say | apply winv_starved | apply winv_set_in]; auto.
 Lemma winv_set_fs w fs : ext (w_fs w) fs -> winv w -> winv (set_fs w fs).
 Proof. intros H [A B]. split; cbn; auto. eapply ext_trans; eauto. Qed.
 
@@ -233,7 +236,7 @@ Proof.
   - apply Hgo. auto.
   - apply Hgo. destruct (c_preserve cfg); auto. apply do_chmod_inv; auto.
   - pose proof (do_mkdir_inv np mode w HP Hw) as X. destruct (do_mkdir cfg np mode w) as [go w1]. cbn [snd] in X.
-    apply Hgo. auto.
+    apply Hgo. destruct (go && c_preserve cfg && c_dirmode cfg); auto. apply do_chmod_inv; auto.
 Qed.
 
 Lemma handle_file_inv np mode size se tv cont w :
@@ -252,14 +255,14 @@ Proof.
     apply on_fd_inv; auto. intros fs' H'. eapply fs_fchmod_ext; eauto. }
   pose proof (data_loop_inv (S (length (w_in w2))) (blk_cnt cfg) p size 0%Z [] 0 0 w2 Hp H2) as HD.
   destruct (data_loop (S (length (w_in w2))) (blk_cnt cfg) p size 0 [] 0 0 w2) as [| |w3|w3]; cbn [fst]; auto.
-  - apply winv_say; auto.
+  - wsolve.
   - assert (Y : winv (snd (on_fd OTrunc p (fs_truncate (w_fs w3) p size) w3))).
     { apply on_fd_inv; auto. intros fs' H'. eapply fs_truncate_ext; eauto. }
     destruct (on_fd OTrunc p (fs_truncate (w_fs w3) p size) w3) as [tok w4]. cbn [snd] in Y.
     set (w5 := if tok then w4 else say (Err ETrunc) w4).
     assert (H5 : winv w5) by (unfold w5; destruct tok; auto; apply winv_say; auto).
     destruct (w_in w5) as [|r inp].
-    + cbn. apply winv_say; auto.
+    + cbn. wsolve.
     + destruct (negb (r =? 0)).
       * cbn. apply winv_say. apply winv_set_in. auto.
       * destruct (se && tok).
@@ -275,8 +278,9 @@ Proof.
   induction fuel as [|f IH]; intros targ isd st w HP Hne Hw; [exact Hw|].
   cbn [loop].
   destruct (read_line (l_buf st) (w_in w)) as [| |inp| |buf cp ch inp]; cbn [fst]; auto.
-  - apply winv_say. apply winv_set_in. auto.
-  - apply winv_say. apply winv_set_in. auto.
+  - wsolve.
+  - wsolve.
+  - wsolve.
   - destruct (buf_set buf cp 0) as [buf1|]; auto.
     destruct buf1 as [|b0 rest1]; auto.
     destruct (if ch =? c_nl then buf_set (b0 :: rest1) (cp - 1) 0 else Some (b0 :: rest1)) as [buf2|]; auto.
@@ -319,6 +323,6 @@ Proof.
   unfold touched in Hin.
   induction (w_log (fst (sink cfg fs stream))) as [|it l IHl]; [destruct Hin|].
   inversion Hall; subst. cbn [fold_right] in Hin.
-  destruct it as [o q ok|r|l0]; auto.
+  destruct it as [o q ok|r|l0|]; auto.
   destruct Hin as [<-|Hin]; auto.
 Qed.
